@@ -82,9 +82,9 @@ def unit(u) -> Stats:
     n, tag, v, modes, tol, poly_unknown = u
     st = Stats()
     for comp in COMPUTERS:
-        chk = Tight(n, v, tol, witnesses=True, polytope_unknown=poly_unknown)
+        chk = Tight(n, v, tol, witnesses=(n <= 4), polytope_unknown=poly_unknown)
         lr = LatticeRun(n, v, comp, chk, st, tag)
-        lr.fresh(Ks=(list(A.layered_knowledge(n, 1)) if n >= 5 else None))
+        lr.fresh(Ks=(list(A.layered_knowledge(n, 2)) if n >= 5 else None))
         if "euler" in modes:
             lr.euler()
         st.nontrivial += len(chk.nontrivial)
@@ -141,6 +141,13 @@ def units(run: Run):
     for kind in ("sq", "budget"):
         from .c01 import layered_game
         us.append((5, f"layer-{kind}", A.shifted(layered_game(5, kind), (1, -1, 2, 0, 3)), (), 0.0, 0))
+    # n = 5: one game per isomorphism class of the pair graph (34), all K within Hamming distance 2 of minimal / full + size layers
+    convex5 = tuple(A.popcount(s) * (A.popcount(s) - 1) // 2 for s in range(32))
+    for i, g in enumerate(A.a5_pair_closure_reps()):
+        if quick and i % 2 != seed % 2:
+            continue
+        gv = A.shifted(g, (1, -1, 2, 0, 3)) if i % 4 < 2 else tuple(a + b for a, b in zip(g, convex5))
+        us.append((5, f"pairgraph#{i}", gv, (), 0.0, 0))
     width = 2 if quick else 8
     for name in gens.SA_FAMILIES:
         for n in ((3, 4) if quick else (3, 4)):
